@@ -11,7 +11,9 @@ def parseCfg (j : Json) : Except String Cfg := do
 
 def handle (j : Json) : Except String Json := do
   let op ← getStr j "op"
-  let cfg ← parseCfg (← j.getObjVal? "cfg")
+  let cfg ← match j.getObjVal? "cfg" with
+    | .ok c => parseCfg c
+    | .error _ => pure ⟨none, none, ⟨0, 0⟩⟩
   match op with
   | "run" =>
     let hits ← (← getArr j "hits").toList.mapM (fun h => do
@@ -21,6 +23,14 @@ def handle (j : Json) : Except String Json := do
     let (st, coll) := runFrom cfg Stats.init hits
     pure (Json.mkObj [("collected", ints coll), ("count", toJson st.count), ("last", toJson st.last),
                       ("fire_count", toJson cfg.count), ("fire_period", toJson cfg.period)])
+  | "runN" =>
+    -- several actions at one location, each with its own configuration and statistics
+    let cfgs ← (← getArr j "cfgs").toList.mapM parseCfg
+    let hits ← (← getArr j "hits").toList.mapM (fun h => do
+      let ts ← getInt h "ts"
+      let c ← getBool h "cond"
+      pure (Hit.mk ts c))
+    pure (Json.mkObj [("collected", Json.arr (cfgs.map (fun c => ints (runFrom c Stats.init hits).2)).toArray)])
   | "conc" =>
     let tss ← (← getArr j "tss").toList.mapM (fun t => t.getInt?)
     let sched ← (← getArr j "sched").toList.mapM (fun t => t.getNat?)
